@@ -314,6 +314,12 @@ class Check:
             print(f"VIOLATION property={self.pid} replay={replay} no-failing-input-found", flush=True)
             rc = 1
         cov = dict(self.cov)
+        if any(b["kind"] == "translator" for b in self.breaks):
+            # the translator refused the source, so Gen.v on disk is the one of an earlier run: whatever Coq accepted was
+            # not about the current code and is not counted
+            cov["discharged"] = 0
+            self.notes.append("translator refused the current source: theorems were (at most) checked against a Gen.v of an "
+                              "earlier run and are not counted as discharged")
         cov["rule"] = rule
         cov["checker_cmd"] = (f"cd /verif/coq && make -f Makefile.coq (coqc 8.16.1) ; coqc {self.pid}/Props.v "
                               "(Print Assumptions under every property theorem)")
